@@ -211,6 +211,17 @@ int main() {
                         std::this_thread::sleep_for(std::chrono::milliseconds(30));
                     }
                 }
+                else if (acode == 6) {
+                    // a well-formed, correctly signed ANNOUNCE that assigns this node a shard and whose endpoint text is `bytes`
+                    // (ports that overflow every integer type, signs, blanks, no port at all): the node later parses that text
+                    pr::Message an6{}; an6.version = pr::kCurrentMessageVersion; an6.type = pr::MessageType::Announce;
+                    pr::AnnouncePayload x{}; x.chunk_id = cid; x.peer_id = A->id; x.ttl = std::chrono::seconds(60);
+                    x.manifest_uri = genuine_uri; x.endpoint = std::string(bytes.begin(), bytes.end()); x.assigned_shards = {1};
+                    an6.payload = x;
+                    send_msg(*A, bid, an6);
+                    std::this_thread::sleep_for(std::chrono::milliseconds(30));
+                    hv::guarded(out, [&] { B->tick(); });
+                }
                 else if (acode == 3 || acode == 4) {
                     // length-field sweep over a valid message: at every offset of its encoding, 1..3 consecutive 32-bit words are
                     // replaced by values whose sum wraps around to the size of what follows, and the message is cut there; each
